@@ -1,6 +1,201 @@
-//! C05: not implemented yet.
+//! C05 (and the shared engine for C06): arbitrary X.509 credentials against trust policy / profile checks.
+//!
+//! case: { chain: [pem..] (end-entity first), key: pem, alg: "es256"|..,
+//!         e2e: bool, settings: {trust:{..}, verify:{..}} (JSON settings document for signing and reading),
+//!         direct: { trust_anchors, user_anchors, allowed_list, trust_config : string|null,
+//!                   anchors_only: bool, passthrough: bool, variant: "trust"|"profile"|"ignore",
+//!                   tst: hex DER TSTInfo | null, signing_time: epoch | null } }
+//! out:  { r, e2e: report | {err}, direct: { trust, profile:{res,log}, verify:{res,log} } }
+use std::borrow::Cow;
+
+use c2pa::{
+    crypto::cose::{CertificateTrustPolicy, Verifier},
+    status_tracker::StatusTracker,
+    Context, Signer, SigningAlg,
+};
 use serde_json::{json, Value};
 
-pub fn run(_case: &Value) -> Value {
-    json!({"r": "unimplemented"})
+use crate::{e2e, util::*};
+
+
+// ---------------------------------------------------------------------------------------------
+// A signer that presents any certificate chain, signs with the given private key, and skips the
+// pre-signing certificate-profile gate of `cose_sign` (through the add-only hook
+// `c2pa::cose_sign::verif_cose_sign_unchecked`), so that non-conforming credentials reach the validator.
+
+/// Raw half: signs bytes with the key, presents `chain` (DER, end-entity first).
+pub struct RawChainSigner {
+    inner: c2pa::BoxedSigner,
+    chain: Vec<Vec<u8>>,
+}
+
+impl Signer for RawChainSigner {
+    fn sign(&self, data: &[u8]) -> c2pa::Result<Vec<u8>> {
+        self.inner.sign(data)
+    }
+    fn alg(&self) -> SigningAlg {
+        self.inner.alg()
+    }
+    fn certs(&self) -> c2pa::Result<Vec<Vec<u8>>> {
+        Ok(self.chain.clone())
+    }
+    fn reserve_size(&self) -> usize {
+        20000 + self.chain.iter().map(|c| c.len()).sum::<usize>()
+    }
+}
+
+impl RawChainSigner {
+    /// COSE_Sign1 over `data` (detached payload, v2 time-stamp storage), padded to the reserve size.
+    pub fn cose(&self, data: &[u8]) -> c2pa::Result<Vec<u8>> {
+        c2pa::cose_sign::verif_cose_sign_unchecked(self, data, self.reserve_size(), true)
+    }
+    pub fn chain(&self) -> &[Vec<u8>] {
+        &self.chain
+    }
+}
+
+/// Builder-facing half: `direct_cose_handling`, returns the finished COSE_Sign1.
+pub struct ChainSigner(pub RawChainSigner);
+
+impl Signer for ChainSigner {
+    fn sign(&self, data: &[u8]) -> c2pa::Result<Vec<u8>> {
+        self.0.cose(data)
+    }
+    fn alg(&self) -> SigningAlg {
+        self.0.alg()
+    }
+    fn certs(&self) -> c2pa::Result<Vec<Vec<u8>>> {
+        self.0.certs()
+    }
+    fn reserve_size(&self) -> usize {
+        self.0.reserve_size()
+    }
+    fn direct_cose_handling(&self) -> bool {
+        true
+    }
+}
+
+/// `chain_pem`: concatenated PEM certificates, end-entity first; `key_pem`: PKCS#8 private key.
+pub fn raw_chain_signer(chain_pem: &[u8], key_pem: &[u8], alg: &str) -> c2pa::Result<RawChainSigner> {
+    let inner = c2pa::create_signer::from_keys(chain_pem, key_pem, e2e::alg_of(alg), None)?;
+    let chain = inner.certs()?;
+    Ok(RawChainSigner { inner, chain })
+}
+
+fn class<E: std::fmt::Debug>(e: &E) -> String {
+    let d = format!("{:?}", e);
+    let end = d.find(|c: char| !(c.is_alphanumeric() || c == '_')).unwrap_or(d.len());
+    d[..end].to_string()
+}
+
+fn log_codes(log: &StatusTracker) -> Value {
+    let v: Vec<Value> = log
+        .logged_items()
+        .iter()
+        .filter_map(|i| i.validation_status.as_ref().map(|s| json!([format!("{:?}", i.kind), s.to_string(), i.description.to_string()])))
+        .collect();
+    json!(v)
+}
+
+fn build_ctp(d: &Value) -> CertificateTrustPolicy {
+    // mirrors Store::new() + Store::from_context(): default policy, then the four trust settings
+    let mut ctp = if d["passthrough"].as_bool().unwrap_or(false) {
+        CertificateTrustPolicy::passthrough()
+    } else {
+        CertificateTrustPolicy::default()
+    };
+    if let Some(s) = d["trust_anchors"].as_str() {
+        let _ = ctp.add_trust_anchors(s.as_bytes());
+    }
+    if let Some(s) = d["user_anchors"].as_str() {
+        let _ = ctp.add_user_trust_anchors(s.as_bytes());
+    }
+    if let Some(s) = d["trust_config"].as_str() {
+        ctp.add_valid_ekus(s.as_bytes());
+    }
+    if let Some(s) = d["allowed_list"].as_str() {
+        let _ = ctp.add_end_entity_credentials(s.as_bytes());
+    }
+    if d["anchors_only"].as_bool().unwrap_or(false) {
+        ctp.set_trust_anchors_only(true);
+    }
+    ctp
+}
+
+pub fn engine(case: &Value) -> Value {
+    let chain_pem: String = case["chain"]
+        .as_array()
+        .map(|a| a.iter().map(|p| p.as_str().unwrap_or("").to_string()).collect::<Vec<_>>().join("\n"))
+        .unwrap_or_default();
+    let key = case["key"].as_str().unwrap_or("");
+    let alg = case["alg"].as_str().unwrap_or("es256");
+    let raw = match raw_chain_signer(chain_pem.as_bytes(), key.as_bytes(), alg) {
+        Ok(s) => s,
+        Err(e) => return json!({"r": "signer-err", "kind": err_class(&e), "detail": e.to_string()}),
+    };
+    let chain: Vec<Vec<u8>> = raw.chain().to_vec();
+    if chain.is_empty() {
+        return json!({"r": "nochain"});
+    }
+    let mut out = json!({"r": "ok"});
+
+    // ------------------------------------------------------------ direct (function level)
+    if case["direct"].is_object() {
+        let d = &case["direct"];
+        let ctp = build_ctp(d);
+        let tst: Option<Vec<u8>> = d["tst"].as_str().map(|h| hex::decode(h).expect("hex"));
+        let st: Option<i64> = d["signing_time"].as_i64();
+        let trust = match ctp.check_certificate_trust(&chain[1..], &chain[0], st) {
+            Ok(t) => format!("{:?}", t),
+            Err(e) => format!("Err:{}", class(&e)),
+        };
+        let mut plog = StatusTracker::default();
+        let pres = match c2pa::verif_hooks::c06::profile_with_tst(&chain[0], &ctp, &mut plog, tst.as_deref()) {
+            Ok(()) => "Ok".to_string(),
+            Err(e) => format!("Err:{}", class(&e)),
+        };
+        let verifier = match d["variant"].as_str().unwrap_or("trust") {
+            "profile" => Verifier::VerifyCertificateProfileOnly(Cow::Borrowed(&ctp)),
+            "ignore" => Verifier::IgnoreProfileAndTrustPolicy,
+            _ => Verifier::VerifyTrustPolicy(Cow::Borrowed(&ctp)),
+        };
+        let data = b"verif payload".to_vec();
+        let verify = match raw.cose(&data) {
+            Ok(cose) => {
+                let mut vlog = StatusTracker::default();
+                let res = match c2pa::verif_hooks::c06::verify_signature_with_tst(&verifier, &cose, &data, b"", tst.as_deref(), &mut vlog) {
+                    Ok(ci) => format!("Ok:{}", ci.validated),
+                    Err(e) => format!("Err:{}", class(&e)),
+                };
+                json!({"res": res, "log": log_codes(&vlog)})
+            }
+            Err(e) => json!({"res": format!("SignErr:{}", err_class(&e)), "log": []}),
+        };
+        out["direct"] = json!({"trust": trust, "profile": {"res": pres, "log": log_codes(&plog)}, "verify": verify});
+    }
+
+    // ------------------------------------------------------------ end to end (sign into an asset, read back)
+    if case["e2e"].as_bool().unwrap_or(false) {
+        let settings = case["settings"].to_string();
+        let mk = || Context::new().with_settings(settings.as_str());
+        let src = e2e::fixture("libpng-test.png");
+        out["e2e"] = match mk() {
+            Err(e) => json!({"err": err_class(&e), "stage": "settings", "detail": e.to_string()}),
+            Ok(ctx) => {
+                let signer = ChainSigner(raw);
+                match e2e::sign(ctx, &e2e::minimal_manifest("c05"), "image/png", &src, &signer) {
+                    Err(e) => json!({"err": err_class(&e), "stage": "sign", "detail": e.to_string()}),
+                    Ok(bytes) => match mk().and_then(|c| e2e::read(c, "image/png", &bytes)) {
+                        Ok(r) => e2e::report(&r),
+                        Err(e) => json!({"err": err_class(&e), "stage": "read", "detail": e.to_string()}),
+                    },
+                }
+            }
+        };
+    }
+    out
+}
+
+pub fn run(case: &Value) -> Value {
+    engine(case)
 }
